@@ -15,6 +15,7 @@ import (
 
 	"github.com/conduitio/conduit-commons/opencdc"
 	"github.com/conduitio/conduit/pkg/pipeline"
+	"github.com/conduitio/conduit/pkg/processor"
 	"github.com/conduitio/conduit/pkg/verifkit"
 	"github.com/conduitio/conduit/pkg/verifkit/fakes"
 	"github.com/conduitio/conduit/pkg/verifkit/stack"
@@ -43,6 +44,8 @@ type flowParams struct {
 	NoMatch      []int   `json:"no_match"`       // records that do not match the processors' condition (Cond: "match")
 	GateDLQOpen  bool    `json:"gate_dlq_open"`  // the DLQ connector's Open is a pending event (an unresponsive DLQ during start-up)
 	Reject       map[string][]string `json:"reject"` // destination -> records/pieces it rejects (forced answers, C08)
+	Reconf       []string `json:"reconf"` // live reconfigure requests for processor "pp": "A", "B" (concurrent), "cancelA"
+	ProcOpenMenu []string `json:"proc_open_menu"`
 	Ctl          []string `json:"ctl"` // explicit control history (after "start"): stop, wait, stopwait, force, stopall, start; one at a time
 	SrcPositions string  `json:"src_positions"` // "" normal, "dup": record 1 repeats the position of record 0, "empty": record 1 has an empty position
 }
@@ -87,6 +90,9 @@ func (p flowParams) name() string {
 	}
 	if len(p.Ctl) > 0 {
 		n += "/ctl=" + strings.Join(p.Ctl, ",")
+	}
+	if len(p.Reconf) > 0 {
+		n += "/reconf=" + strings.Join(p.Reconf, ",") + "/procopen=" + strings.Join(p.ProcOpenMenu, ",")
 	}
 	if p.Bundle > 0 {
 		n += fmt.Sprintf("/bundle%d", p.Bundle)
@@ -186,7 +192,7 @@ func flowScenario(p flowParams) verifkit.Scenario {
 			procs := fakes.NewProcs(x.W)
 			for _, pr := range p.Procs {
 				pr := pr
-				procs.Add(fakes.ProcScript{Name: pr.ID, Gate: pr.Gate, Menu: pr.Menu, KindOf: func(_ string, idx, _ int) string {
+				procs.Add(fakes.ProcScript{Name: pr.ID, Gate: pr.Gate, Menu: pr.Menu, OpenMenu: p.ProcOpenMenu, KindOf: func(_ string, idx, _ int) string {
 					if idx >= 0 && idx < len(pr.Kinds) {
 						return kindName(pr.Kinds[idx])
 					}
@@ -209,6 +215,30 @@ func flowScenario(p flowParams) verifkit.Scenario {
 				err := st.LC.Start(x.Ctx, stack.PipelineID)
 				x.W.Log("ctl", "start.ret", -1, errStr(err))
 			}})
+			if len(p.Reconf) > 0 {
+				startCtl := x.Controls[0]
+				ctxA, cancelA := context.WithCancel(x.Ctx)
+				x.OnCleanup(cancelA)
+				for _, r := range p.Reconf {
+					r := r
+					switch r {
+					case "A", "B":
+						gen, rctx := "g1", ctxA
+						if r == "B" {
+							gen, rctx = "g2", x.Ctx
+						}
+						x.AddControl(&verifkit.Control{Name: "reconf" + r, Enabled: startCtl.Returned, Do: func() {
+							_, err := st.Processors.UpdateWhileRunning(x.Ctx, "pp", "pp", processor.Config{Settings: map[string]string{"gen": gen}, Workers: 1})
+							if err == nil {
+								err = st.LC.ReconfigureProcessor(rctx, stack.PipelineID, "pp")
+							}
+							x.W.Log("ctl", "reconf"+r+".ret", -1, errStr(err))
+						}})
+					case "cancelA":
+						x.AddControl(&verifkit.Control{Name: "cancelA", Enabled: startCtl.Returned, Do: func() { cancelA() }})
+					}
+				}
+			}
 			for i, c := range p.Ctl {
 				c, name := c, fmt.Sprintf("%s#%d", c, i+1)
 				x.AddControl(&verifkit.Control{Name: name, AfterPrevReturned: true, Do: func() {
@@ -348,6 +378,20 @@ func outcomeOf(x *verifkit.Exec) string {
 	}
 	sort.Strings(comps)
 	var sb strings.Builder
+	for _, e := range x.W.Events() {
+		if e.Comp == "ctl" && strings.HasPrefix(e.Kind, "reconf") {
+			a := e.Arg
+			if len(a) > 24 {
+				a = a[:24]
+			}
+			sb.WriteString(e.Kind + "=" + a + ";")
+		}
+	}
+	for _, c := range x.Controls {
+		if strings.HasPrefix(c.Name, "reconf") && c.Issued() && !c.ReturnedInTime() {
+			sb.WriteString(c.Name + "=NEVER-RETURNED;")
+		}
+	}
 	for _, c := range comps {
 		fmt.Fprintf(&sb, "%s=%v;", c, acks[c])
 	}
@@ -426,6 +470,9 @@ func TestVerifFlow(t *testing.T) {
 func filterFor(prop string, vs []verifkit.Violation) []verifkit.Violation {
 	var out []verifkit.Violation
 	for _, v := range vs {
+		if prop == "C13" && (strings.HasPrefix(v.Key, "C01/") || strings.HasPrefix(v.Key, "C04/") || strings.HasPrefix(v.Key, "C05/")) {
+			v.Key = "C13/order-acks-positions-affected:" + v.Key // a live reconfigure must leave order, acks and positions unaffected
+		}
 		if prop == "C09" {
 			// C09 on the full stack: whatever shape a plugin replies with, the engine neither acknowledges an affected
 			// record nor fails to terminate. (Panics are caught by the driver: the crashing schedule is journaled.)
